@@ -66,7 +66,10 @@ type connCase struct {
 	// Zone: the process-wide local time zone the proxy runs in ("" = the harness's own, UTC in the
 	// sandbox): "tz:<IANA name>" (TZ in the environment of a child process) or "fixed:<seconds east>"
 	// (time.Local assigned in a child process before anything starts), see zones.go
-	Zone  string `json:"zone,omitempty"`
+	Zone string `json:"zone,omitempty"`
+	// Hosts: text of the hosts file the proxy instance is constructed with ("" = the machine's own): the
+	// names it gives to loopback addresses are localhost names of that instance, see hostsfile.go
+	Hosts string `json:"hosts,omitempty"`
 	Items []item `json:"items"`
 }
 
@@ -89,6 +92,8 @@ type env struct {
 	dmu      sync.Mutex
 	dials    []dialRec
 	names    []string
+	hosts    string                // text of the hosts file the instance was constructed with ("" = the machine's)
+	hostRecs []reqmodel.HostsRecord // its records, as the harness reads them
 }
 
 func (e *env) close() {
@@ -121,6 +126,8 @@ var (
 // composes hp.localhost.
 func localNames() []string {
 	aliasOnce.Do(func() {
+		hostsMu.RLock() // no generated hosts file is installed while the machine's own is read
+		defer hostsMu.RUnlock()
 		lh, err := hostsfile.LocalhostAliases()
 		if err != nil {
 			core.Fatalf("cannot read localhost aliases: %v", err)
@@ -143,8 +150,12 @@ func timeFrames(open bool) []reqmodel.TimeFrame {
 	return []reqmodel.TimeFrame{{Weekday: (wd + 3) % 7, HourStart: 0, HourEnd: 24}, {Weekday: (wd + 4) % 7, HourStart: 9, HourEnd: 17}}
 }
 
-func newEnv(ctx *core.Ctx, mask int, timeOpen bool, mode string, frameKind string) (*env, error) {
-	e := &env{mask: mask, timeOpen: timeOpen, mode: mode, frameKind: frameKind, names: localNames()}
+func newEnv(ctx *core.Ctx, mask int, timeOpen bool, mode string, frameKind string, hosts string) (*env, error) {
+	e := &env{mask: mask, timeOpen: timeOpen, mode: mode, frameKind: frameKind, names: localNames(), hosts: hosts}
+	if hosts != "" {
+		e.hostRecs = reqmodel.ParseHosts(hosts)
+		e.names = namesFromHosts(e.hostRecs)
+	}
 	var err error
 	if e.origin, err = rig.NewPeer("origin", okResponder); err != nil {
 		return nil, err
@@ -225,7 +236,7 @@ func newEnv(ctx *core.Ctx, mask int, timeOpen bool, mode string, frameKind strin
 			return network, post
 		}
 	}
-	if e.proxy, err = rig.StartProxy(opts); err != nil {
+	if e.proxy, err = startProxyWithHosts(ctx, opts, hosts, e.hostRecs); err != nil {
 		return nil, err
 	}
 	e.cfg = fc.Base
@@ -372,6 +383,7 @@ type oneItem struct {
 	Mode     string `json:"mode"`
 	Frames   string `json:"frames,omitempty"`
 	Zone     string `json:"zone,omitempty"`
+	Hosts    string `json:"hosts,omitempty"`
 	// informative (a replay lays the frame family around the clock of the replaying run)
 	FramesUsed []reqmodel.TimeFrame `json:"frames_used,omitempty"`
 	LocalClock string               `json:"local_clock,omitempty"`
@@ -432,10 +444,10 @@ func (it *item) wire() []byte {
 // the local wall clock itself (Model/C04.lean timeAllowedAt).
 func (e *env) clockAt(now time.Time) *reqmodel.Clock {
 	if e.mask&ctlTime == 0 {
-		return &reqmodel.Clock{}
+		return &reqmodel.Clock{HostsFile: e.hosts != "", Hosts: e.hostRecs}
 	}
 	_, off := now.Zone()
-	return &reqmodel.Clock{Entries: e.frames, At: true, Unix: now.Unix(), Offset: off}
+	return &reqmodel.Clock{Entries: e.frames, At: true, Unix: now.Unix(), Offset: off, HostsFile: e.hosts != "", Hosts: e.hostRecs}
 }
 
 // specTimeAllowed: the documented meaning of --allow-time-frame evaluated on the local wall clock,
@@ -487,7 +499,7 @@ func (e *env) runConn(ctx *core.Ctx, cc *connCase) {
 	secure := false
 	for i := range cc.Items {
 		it := &cc.Items[i]
-		one := oneItem{Kind: "one", Mask: cc.Mask, TimeOpen: cc.TimeOpen, Mode: cc.Mode, Frames: cc.Frames, Zone: cc.Zone, Position: i, Inner: secure,
+		one := oneItem{Kind: "one", Mask: cc.Mask, TimeOpen: cc.TimeOpen, Mode: cc.Mode, Frames: cc.Frames, Zone: cc.Zone, Hosts: cc.Hosts, Position: i, Inner: secure,
 			Prefix: cc.Items[:i], Item: *it}
 		before := e.quiesce()
 		d0 := e.dialCount()
@@ -525,6 +537,9 @@ func (e *env) runConn(ctx *core.Ctx, cc *connCase) {
 		if cc.Frames != "" || cc.Zone != "" {
 			key += "|" + cc.Frames + "|" + cc.Zone
 		}
+		if cc.Hosts != "" {
+			key += "|hosts:" + cc.Hosts
+		}
 		pa := paValues(it.fields())
 		sv, class := e.spec(timeAllowed, hn, pa)
 		if e.mask&ctlTime != 0 {
@@ -544,6 +559,9 @@ func (e *env) runConn(ctx *core.Ctx, cc *connCase) {
 		}
 		if cc.Zone != "" {
 			ctx.Count("zone/" + cc.Zone)
+		}
+		if cc.Hosts != "" {
+			e.countHostsCase(ctx, hn)
 		}
 		nontrivial := e.mask != 0 && (sv.refuse || len(pa) > 0 || it.Connect != nil)
 		ctx.Case(key, nontrivial)
@@ -691,6 +709,7 @@ type envKey struct {
 	timeOpen bool
 	mode     string
 	frames   string
+	hosts    string
 }
 
 type envSlot struct {
@@ -707,14 +726,14 @@ type envPool struct {
 
 func newEnvPool(ctx *core.Ctx) *envPool { return &envPool{envs: map[envKey]*envSlot{}, ctx: ctx} }
 
-func (p *envPool) get(mask int, timeOpen bool, mode string, frames string) (*env, error) {
+func (p *envPool) get(mask int, timeOpen bool, mode string, frames string, hosts string) (*env, error) {
 	if mask&ctlTime == 0 {
 		timeOpen, frames = true, ""
 	}
 	if frames != "" {
 		timeOpen = true
 	}
-	k := envKey{mask, timeOpen, mode, frames}
+	k := envKey{mask, timeOpen, mode, frames, hosts}
 	p.mu.Lock()
 	sl, ok := p.envs[k]
 	if !ok {
@@ -723,7 +742,7 @@ func (p *envPool) get(mask int, timeOpen bool, mode string, frames string) (*env
 	}
 	p.mu.Unlock()
 	// environments are started outside the pool's lock (several at a time)
-	sl.once.Do(func() { sl.env, sl.err = newEnv(p.ctx, mask, timeOpen, mode, frames) })
+	sl.once.Do(func() { sl.env, sl.err = newEnv(p.ctx, mask, timeOpen, mode, frames, hosts) })
 	return sl.env, sl.err
 }
 
@@ -752,6 +771,12 @@ func Run(ctx *core.Ctx) {
 		"IsUnspecified, url host splitting, ParseTimeFrameEntry + TimeFrameEntry.Match on explicit time.Time values in fixed (-12h..+14h, :30, :45, LMT, odd " +
 		"seconds) and IANA zones, BasicAuth.AuthenticatedRequest under many configured pairs (passwords with colons, empty password, equal user and password, " +
 		"non-ASCII) with the near family; " +
+		"the same connections through proxy instances CONSTRUCTED ON GENERATED HOSTS FILES (the hosts-file library's Location variable is pointed at the file while " +
+		"NewHTTPProxy runs): loopback records 127.0.0.1 / 127.x.y.z / ::1 in several spellings with names in mixed case (names that sort before and after " +
+		"localhost, 0.0.0.0 and :: in byte order and differently once lower-cased), repeated names and repeated built-in names, lines of 15-40 names, comments, " +
+		"records with other addresses (0.0.0.0, 10.x, fe80::1 ...) whose names must not become localhost; targets: every name of the file as spelt, lower, upper and " +
+		"mixed case, the built-in names, loopback / unspecified literals, near misses; GET/HEAD/POST/CONNECT, with and without port, localhost denial on and off, " +
+		"directly, through an upstream proxy and inside an intercepted tunnel; the model composes the localhost names from the file's records itself (hostsrec=); " +
 		"non-trivial = some control enabled and (the property refuses the request, or it carries Proxy-Authorization, or it is a CONNECT); API cases: every " +
 		"zoned time-frame case, every basic-auth case with a value; distinct = distinct (configuration, zone, frame family, position kind, request bytes)")
 	maybeZoneChild(ctx)
@@ -769,7 +794,7 @@ func Run(ctx *core.Ctx) {
 		go func() {
 			defer wg.Done()
 			for cc := range jobs {
-				e, err := pool.get(cc.Mask, cc.TimeOpen, cc.Mode, cc.Frames)
+				e, err := pool.get(cc.Mask, cc.TimeOpen, cc.Mode, cc.Frames, cc.Hosts)
 				if err != nil {
 					ctx.Crash("proxy starts with a valid configuration", "", cc, err.Error())
 					continue
@@ -786,8 +811,19 @@ func Run(ctx *core.Ctx) {
 		}
 		jobs <- cc
 	}
+	// the same with proxy instances constructed on generated hosts files
+	hostsFiles := genHostsFiles(ctx)
+	for i, n := 0, ctx.N(900, 8000); i < n; i++ {
+		r := ctx.Rng.Sub()
+		cc := genHostsConn(r, hostsFiles[i%len(hostsFiles)])
+		if i == 0 {
+			ctx.Sample(cc)
+		}
+		jobs <- cc
+	}
 	close(jobs)
 	wg.Wait()
+	hostsAPI(ctx, hostsFiles)
 	runZones(ctx)
 	var ks []string
 	for k := range pool.envs {
@@ -795,6 +831,7 @@ func Run(ctx *core.Ctx) {
 	}
 	sort.Strings(ks)
 	ctx.Extra("configurations_run", len(ks))
+	ctx.Extra("hosts_files_run", len(hostsFiles))
 }
 
 func replayWith(ctx *core.Ctx, pool *envPool, raw json.RawMessage) {
@@ -808,12 +845,26 @@ func replayWith(ctx *core.Ctx, pool *envPool, raw json.RawMessage) {
 		// API-level cases are regenerated from the seed; a recorded one is re-evaluated by value
 		replayAPI(ctx, k.Kind, raw)
 		return
+	case "hostsfile":
+		// what hostsfile.LocalhostAliases reads from a generated hosts file: compared when an instance is constructed on it
+		var h struct {
+			Hosts string `json:"hosts"`
+		}
+		json.Unmarshal(raw, &h)
+		e, err := newEnv(ctx, ctlLocal, true, "direct", "", h.Hosts)
+		if err != nil {
+			ctx.Crash("proxy starts with a valid configuration", "", h, err.Error())
+		}
+		if e != nil {
+			e.close()
+		}
+		return
 	case "one":
 		var o oneItem
 		if err := json.Unmarshal(raw, &o); err != nil {
 			core.Fatalf("bad C04 case: %v", err)
 		}
-		cc = connCase{Kind: "conn", Mask: o.Mask, TimeOpen: o.TimeOpen, Mode: o.Mode, Frames: o.Frames, Zone: o.Zone, Items: append(append([]item{}, o.Prefix...), o.Item)}
+		cc = connCase{Kind: "conn", Mask: o.Mask, TimeOpen: o.TimeOpen, Mode: o.Mode, Frames: o.Frames, Zone: o.Zone, Hosts: o.Hosts, Items: append(append([]item{}, o.Prefix...), o.Item)}
 	default:
 		if err := json.Unmarshal(raw, &cc); err != nil {
 			core.Fatalf("bad C04 case: %v", err)
@@ -824,7 +875,7 @@ func replayWith(ctx *core.Ctx, pool *envPool, raw json.RawMessage) {
 		runZoneChild(ctx, zoneJob{Zone: cc.Zone, Cases: []connCase{cc}})
 		return
 	}
-	e, err := pool.get(cc.Mask, cc.TimeOpen, cc.Mode, cc.Frames)
+	e, err := pool.get(cc.Mask, cc.TimeOpen, cc.Mode, cc.Frames, cc.Hosts)
 	if err != nil {
 		ctx.Crash("proxy starts with a valid configuration", "", cc, err.Error())
 		return
